@@ -31,6 +31,11 @@ func init() {
 			{ID: "C12.R2", Min: 13, Desc: "primitive tables agree", Fn: c12Primitives},
 			{ID: "C12.R3", Min: 28, Desc: "registry consistency", Fn: c12Registry},
 			{ID: "C12.R4", Min: 20, Desc: "field coverage", Fn: c12Coverage},
+			{ID: "C12.R10", Min: 1, Desc: "no error of the codec layer is dropped implicitly", Fn: func(p *Program, r *Report) {
+				p.checkNoImplicitDrop(r, "the codec (messages, envelope and cluster serialisers, registered readers/writers)", "an encoding error that is not propagated yields a truncated or empty frame that is sent as if it were complete; a decoding error that is not propagated hands on a half-filled message", func(rel string) bool {
+					return rel == "" || rel == "internal/messages" || rel == "internal/remoting/serialize" || rel == "internal/cluster"
+				})
+			}},
 			{ID: "C12.R5", Min: 7, Desc: "no lossy conversion on the writer side", Fn: c12Lossy},
 			{ID: "C12.R6", Min: 12, Desc: "positional field correspondence", Fn: c12Positions},
 			{ID: "C12.R7", Min: 3, Desc: "no constant substituted for a present field", Fn: c12Substitution},
